@@ -31,6 +31,20 @@ impl Clone for Counter {
     }
 }
 
+// own.clone-fieldwise (clone_from): clone() is right, clone_from() keeps the destination's key part
+pub struct KeepsKey<C> {
+    cipher: C,
+    iv: Array<u8, U16>,
+}
+impl<C: Clone> Clone for KeepsKey<C> {
+    fn clone(&self) -> Self {
+        Self { cipher: self.cipher.clone(), iv: self.iv.clone() }
+    }
+    fn clone_from(&mut self, source: &Self) {
+        self.iv.clone_from(&source.iv);
+    }
+}
+
 // own.calls-allow-listed: hidden global state through an atomic
 pub fn bump() -> usize {
     CALLS.fetch_add(1, Ordering::Relaxed)
